@@ -371,7 +371,8 @@ class AsrFormatter(BlockExitFormatter):
     def split(self, text):
         policy_end_blocks = ("end-set", "endif", "end-policy")
         tree = self.split_remove_spaces(text)
-        tree[:] = filter(lambda x: not x.endswith(policy_end_blocks), tree)
+        # only the terminator lines themselves: a line that merely ENDS with one of these words is configuration
+        tree[:] = filter(lambda x: x.strip() not in policy_end_blocks, tree)
         return tree
 
     def block_exit(self, context: Optional[FormatterContext]) -> str:
